@@ -508,6 +508,13 @@ def source_facts(repo_src: pathlib.Path):
     facts["memo_keys_coarser_than_function"] = [m for m in facts["memoised_functions"] if m["coarse_key_params"]]
     facts["memo_keys_determine_result"] = not facts["memo_keys_coarser_than_function"]
 
+    # 13. override files are read in the order they are given (the later file wins; no re-ordering by path)
+    fn = find_def("nunavut/lang/__init__.py", "add_config_files", "LanguageContextBuilder")
+    param = fn.args.vararg.arg if fn.args.vararg is not None else (fn.args.args[1].arg if len(fn.args.args) > 1 else None)
+    loops = [n for n in ast.walk(fn) if isinstance(n, ast.For)]
+    facts["config_files_read_in_given_order"] = bool(param) and len(loops) == 1 and isinstance(loops[0].iter, ast.Name) and loops[0].iter.id == param
+    facts["config_files_loop"] = [ast.unparse(l.iter) for l in loops]
+
     # 10. nothing but the command line, the declared environment variables and the package itself is looked at
     facts["ambient_probes"] = ambient_probes(repo_src)
     facts["no_undeclared_ambient_inputs"] = not facts["ambient_probes"]
@@ -2047,6 +2054,8 @@ def emit_top(facts) -> str:
             "/-- Outside templates and filters, no code of the package looks at a path relative to the working directory, the working or",
             "home directory, an undocumented environment variable, or a temporary-file name. -/",
             f"def noUndeclaredAmbientInputs : Bool := {b(facts['no_undeclared_ambient_inputs'])}",
+            "/-- `LanguageContextBuilder.add_config_files` iterates over its argument as given (no sorting / de-duplication by path). -/",
+            f"def configFilesReadInGivenOrder : Bool := {b(facts['config_files_read_in_given_order'])}",
             "/-- `_generate_with_line_buffer` binds `line_buffer` only to a fresh `io.StringIO()` (at entry, after each complete line). -/",
             f"def lineBufferPerCall : Bool := {b(facts['line_buffer_per_call'])}",
             "/-- No function behind `functools.lru_cache` takes a PyDSDL model object (equal by name, version and bit length set only) or a",
